@@ -447,6 +447,9 @@ func queryMoreScenarios(tier string, add func(qScn), d func(string, int, string)
 		n = 2<<16 + 64
 	}
 	add(qScn{tries: 1, reps: 1, tag: "id-wraparound", special: "wrap", wrapN: n})
+	// the reply matched between the sender's time-out and the removal of the transaction (query_lockwin.go)
+	add(qScn{tries: 1, reps: 6, tag: "reply-behind-lock-at-timeout-1", special: "lockwin"})
+	add(qScn{tries: 3, reps: 4, tag: "reply-behind-lock-at-timeout-3", special: "lockwin"})
 	queryOverlapScenarios(tier, add)
 }
 
